@@ -8,7 +8,7 @@ from .common import make_gmm, sym_stats, total
 FUNCTIONS = ["gmm.map_gmm_m_step", "gmm.m_step (wrapper, functools.reduce(operator.iadd))", "gmm.GMMMachine.__init__ (prior copied into a MAP machine)",
              "gmm.GMMMachine setters (variance clamp)"]
 STUBS = []
-ASSUMPTIONS = ["prior weights on the simplex and > 0, prior variances > 0, prior variance floors >= machine epsilon (the MAP constructor clamps copied prior variances to machine epsilon before adopting the prior floors)", "statistics: n_c >= 0, sum n_c = t > 0, n*S >= F^2",
+ASSUMPTIONS = ["prior weights on the simplex and > 0, prior variances > 0, prior variance floors > 0", "statistics: n_c >= 0, sum n_c = t > 0, n*S >= F^2",
                "relevance factor r > 0 (Reynolds) or fixed ratio alpha in [0,1] (scalar or per-component array)",
                "count threshold = machine epsilon (the default); a component counts as 'no evidence' iff n_c < threshold",
                "monotonicity of the relevance-penalised likelihood follows from exact E-step (C02) + the M-step being the stationary point of Q(mu) - r/2 sum (mu-mu0)^2/var (proved here) + Jensen (trusted)"]
@@ -25,10 +25,6 @@ def bounds(tier):
 def sc_map(B, C, D, um, uv, uw, mode, split=False):
     gmm = B.mod("gmm")
     ubm, UP = make_gmm(B, C, D, "vector", pre="u", simplex=True)
-    # a MAP machine is built with the default floor (machine epsilon) before it takes the prior's
-    # floors; priors with floors below machine epsilon are outside the claim
-    for d in range(D):
-        B.assume(UP["raw"]["thr"][d] >= 2.220446049250313e-16)
     if mode == "reynolds":
         r = B.real("r", pos=True)
         m = gmm.GMMMachine(C, trainer="map", ubm=ubm, update_means=um, update_variances=uv, update_weights=uw, map_relevance_factor=r)
